@@ -4,6 +4,7 @@ CONSTANTS
   Scenario <- const_NoScn
   MaxIno = 60
   IgnoreENOENT = TRUE
+  IgnoreENOTDIROnOpen = FALSE
   NoFollowOnOpen = TRUE
   MaxAttack = 0
   AnyOrder = TRUE
